@@ -8,11 +8,11 @@ import (
 	"syscall"
 )
 
-func getLinkInfo(fi os.FileInfo) (uint64, bool) {
+func getLinkInfo(fi os.FileInfo) (inodeKey, bool) {
 	s, ok := fi.Sys().(*syscall.Stat_t)
 	if !ok {
-		return 0, false
+		return inodeKey{}, false
 	}
 
-	return uint64(s.Ino), !fi.IsDir() && s.Nlink > 1
+	return inodeKey{dev: uint64(s.Dev), ino: uint64(s.Ino)}, !fi.IsDir() && s.Nlink > 1
 }
